@@ -140,8 +140,12 @@ def run(ctx):
     (r, I), _ = agree_ref(ctx, an, REF_ADD_NOISE, 'add_noise: draw, add, book-keep (requested parameters on an empty frame, '
                           'sigma-clipped re-estimate otherwise)', what=('return', 'heap', 'raises'), no_inline=DIST, expand=False)
     ao = ctx.func(FR + 'add_noise_from_obs')
+    # (the parameter tables are numeric arrays: an entry drawn from one is a number, never None)
+    T.SYMKIND.update({'x_mean_array': 'array', 'x_std_array': 'array', 'x_min_array': 'array'})
     (r2, I2), _ = agree_ref(ctx, ao, REF_FROM_OBS, 'add_noise_from_obs: table sampling (one shared index when requested), draw, add, '
                             'book-keep', what=('return', 'heap', 'raises'), no_inline=DIST, expand=False)
+    for k_ in ('x_mean_array', 'x_std_array', 'x_min_array'):
+        T.SYMKIND.pop(k_, None)
     ctx.clause = 'D2'
     for fi, II, rr in ((an, I, r), (ao, I2, r2)):
         adds = [e for e in II.events if e.kind == 'store' and e.data.get('target') == 'attr' and e.data.get('name') == 'data'
